@@ -221,8 +221,11 @@ struct VM {
 
     // ---- decoders
     uint64_t dec_index() {
+        // fixed width (11 bytes) so that programs can be constructed as well as mutated: kind, 8 payload bytes, two extra bytes
         uint8_t k = rd.u8();
         uint64_t x = rd.u64();
+        uint8_t e1 = rd.u8(), e2 = rd.u8();
+        (void)e2;
         switch (k % 16) {
             case 14:
             case 15: {  // a true neighbour of another register (the library is only an input source here)
@@ -240,22 +243,22 @@ struct VM {
             case 4: {                             // flipped bits
                 uint64_t h = make_valid(x);
                 int nf = 1 + (int)((x >> 62) & 1) + (int)((x >> 61) & 1);
-                uint8_t b = rd.u8();
+                uint8_t b = e1;
                 for (int i = 0; i < nf; i++) h ^= 1ULL << ((b + 23 * i) & 63);
                 return h;
             }
             case 5: {  // other mode
                 uint64_t h = make_valid(x);
-                return (h & ~(15ULL << 59)) | ((uint64_t)(rd.u8() & 15) << 59);
+                return (h & ~(15ULL << 59)) | ((uint64_t)(e1 & 15) << 59);
             }
             case 6: {  // reserved bits
                 uint64_t h = make_valid(x);
-                return h | ((uint64_t)(rd.u8() & 7) << 56);
+                return h | ((uint64_t)(e1 & 7) << 56);
             }
             case 7: {  // digit 7 inside the resolution, or non-7 after it (half of the time below a pentagon, where digits are re-based)
                 uint64_t h = make_valid(x, -1, ((x >> 62) & 1) ? 2 : 0);
-                int pos = 1 + rd.u8() % 15;
-                int dg = (pos <= ref::res_of(h)) ? 7 : rd.u8() % 7;
+                int pos = 1 + e1 % 15;
+                int dg = (pos <= ref::res_of(h)) ? 7 : e2 % 7;
                 h &= ~(7ULL << (3 * (15 - pos)));
                 return h | ((uint64_t)dg << (3 * (15 - pos)));
             }
@@ -263,18 +266,18 @@ struct VM {
                 uint64_t h = make_valid(x, -1, 2);
                 int res = ref::res_of(h);
                 if (!res) return h;
-                int pos = 1 + rd.u8() % res;
+                int pos = 1 + e1 % res;
                 for (int r = 1; r < pos; r++) h &= ~(7ULL << (3 * (15 - r)));
                 h &= ~(7ULL << (3 * (15 - pos)));
                 return h | (1ULL << (3 * (15 - pos)));
             }
             case 9: {  // directed-edge shaped
                 uint64_t h = make_valid(x, -1, (x >> 63) ? 1 : 0);
-                return (h & ~(15ULL << 59) & ~(7ULL << 56)) | (2ULL << 59) | ((uint64_t)(rd.u8() & 7) << 56);
+                return (h & ~(15ULL << 59) & ~(7ULL << 56)) | (2ULL << 59) | ((uint64_t)(e1 & 7) << 56);
             }
             case 10: {  // vertex shaped
                 uint64_t h = make_valid(x, -1, (x >> 63) ? 1 : 0);
-                return (h & ~(15ULL << 59) & ~(7ULL << 56)) | (4ULL << 59) | ((uint64_t)(rd.u8() & 7) << 56);
+                return (h & ~(15ULL << 59) & ~(7ULL << 56)) | (4ULL << 59) | ((uint64_t)(e1 & 7) << 56);
             }
             case 11: {
                 static const uint64_t sp[] = {0, ~0ULL, 0x7fffffffffffffffULL, 0x8000000000000000ULL, 0x08001fffffffffffULL,
@@ -296,7 +299,36 @@ struct VM {
             default: return R[x & 7];
         }
     }
-    uint64_t reg() { return R[rd.u8() & 7]; }
+    // a register as argument; in 6 of 32 selector values a near-miss of it, so that every function sees arguments that are one rule away
+    // from valid at a useful rate (coverage feedback alone does not find "digit 7 two levels below a pentagon" in a minute)
+    uint64_t reg() {
+        uint8_t b = rd.u8();
+        uint64_t h = R[b & 7];
+        int m = b >> 3;
+        if (m < 26) return h;
+        int res = (int)((h >> 52) & 15);
+        uint8_t a = rd.u8();
+        switch (m) {
+            case 26: {  // digit 7 at a position inside the resolution
+                if (!res) return h;
+                int pos = 1 + a % res;
+                return h | (7ULL << (3 * (15 - pos)));
+            }
+            case 27: {  // digit 1 (K axis) at a position inside the resolution: the deleted sub-sequence when below a pentagon
+                if (!res) return h;
+                int pos = 1 + a % res;
+                return (h & ~(7ULL << (3 * (15 - pos)))) | (1ULL << (3 * (15 - pos)));
+            }
+            case 28: return h ^ (1ULL << (a & 63));
+            case 29: {  // same digits, resolution field one finer (the former first unused digit 7 is now inside) or one coarser
+                int nr = (a & 1) ? res + 1 : res - 1;
+                if (nr < 0 || nr > 15) return h;
+                return (h & ~(15ULL << 52)) | ((uint64_t)nr << 52);
+            }
+            case 30: return (h & ~(127ULL << 45)) | ((uint64_t)ref::PENT_BC[a % 12] << 45);  // same digits below a pentagon base cell
+            default: return (h & ~(127ULL << 45)) | ((uint64_t)(a & 127) << 45);            // any base cell number 0..127
+        }
+    }
     int dec_int() {
         uint8_t k = rd.u8();
         switch (k % 8) {
@@ -1302,6 +1334,53 @@ inline uint64_t run_program(const uint8_t *data, size_t size) {
     if (g_trace && !sample) fprintf(stderr, "TRACE %s\n", g_tracebuf.c_str());
     g_trace = saved;
     return g_obs;
+}
+
+// ---------------------------------------------------------------- structured enumeration (no fuzzer involved)
+// Every (function, register construction, argument near-miss mode) combination with `payloads` generated payloads each: 62 x 16 x 7
+// programs per payload. All eight registers are built with the same construction (register 1 alternately as a true neighbour of
+// register 0, so that two-cell functions see adjacent pairs), the first call is the chosen function with the chosen near-miss
+// selector for its first register argument, the remaining bytes decode into further calls. Programs are plain byte strings:
+// `on_program` sees the bytes before they run (so that a crash can be attributed), failures are reported like any other.
+inline uint64_t enum_mix(uint64_t &st) {
+    uint64_t z = (st += 0x9E3779B97F4A7C15ULL);
+    z = (z ^ (z >> 30)) * 0xBF58476D1CE4E5B9ULL;
+    z = (z ^ (z >> 27)) * 0x94D049BB133111EBULL;
+    return z ^ (z >> 31);
+}
+inline uint64_t enumerate_programs(int shard, int nshards, uint64_t seed, int payloads, void (*on_program)(const uint8_t *, size_t)) {
+    static const int MODES[7] = {0, 26, 27, 28, 29, 30, 31};
+    uint64_t idx = 0, ran = 0;
+    uint8_t buf[160];
+    for (int f = 0; f < 62; f++)
+        for (int kind = 0; kind < 16; kind++)
+            for (int mi = 0; mi < 7; mi++)
+                for (int j = 0; j < payloads; j++) {
+                    if ((int)(idx++ % (uint64_t)nshards) != shard) continue;
+                    uint64_t st = seed * 0x2545F4914F6CDD1DULL + idx;
+                    size_t n = 0;
+                    for (int r = 0; r < 8; r++) {
+                        buf[n++] = (uint8_t)((r == 1 && (j & 1)) ? 14 : kind);
+                        uint64_t x = enum_mix(st);
+                        if (r == 1 && (j & 1)) x &= ~7ULL;                                 // neighbour of register 0
+                        else if (j & 2) x = (x & ~15ULL) | (enum_mix(st) % 6);             // coarse resolutions half of the time
+                        for (int b = 0; b < 8; b++) buf[n++] = (uint8_t)(x >> (8 * b));
+                        uint64_t e = enum_mix(st);
+                        buf[n++] = (uint8_t)e;
+                        buf[n++] = (uint8_t)(e >> 8);
+                    }
+                    uint64_t t = enum_mix(st);
+                    buf[n++] = (uint8_t)f;
+                    buf[n++] = (uint8_t)t;                                    // destination register
+                    buf[n++] = (uint8_t)((MODES[mi] << 3) | ((t >> 8) & 1));  // first register argument: register 0 or 1, near-miss mode
+                    buf[n++] = (uint8_t)(t >> 16);
+                    buf[n++] = (uint8_t)(((t >> 24) & 1) ^ 1);                // a second register argument, if any: the other one of 0 / 1
+                    for (int b = 0; b < 40; b++) { if ((b & 7) == 0) t = enum_mix(st); buf[n++] = (uint8_t)(t >> (8 * (b & 7))); }
+                    if (on_program) on_program(buf, n);
+                    run_program(buf, n);
+                    ran++;
+                }
+    return ran;
 }
 
 inline void init_from_env() {
